@@ -22,6 +22,7 @@ THEOREMS = {
     "phase": "C01_phase",
     "amplitude": "C01_amplitude_eq",
 }
+REQUIRED_THEOREMS = ['C01_hidden_marginal', 'C01_normSq_psi_positive', 'C01_normSq_psi_complex', 'C01_normalization', 'C01_unit_norm', 'C01_modulus_indep_phase_net', 'C01_phase', 'C01_psi_polar', 'C01_positive_real_pos']
 RULE = ("case = (state kind, n, h, parameter scale, parameters); generated with every weight/bias = scale*N(0,1) "
         "(scale in {0,0.1,1,3,10,30}); all 2^n basis states evaluated in vector and batched call forms; "
         "each case is evaluated, then re-parametrised IN PLACE and evaluated again on the same state object and the same space tensors (history); non-trivial iff some visible bias != 0 and some hidden bias != 0 and (h != n or scale >= 1); distinct by hash of the case")
